@@ -162,7 +162,9 @@ Section Iface.
     ctx_reachable_direct s c ||
     match n with
     | O => false
-    | S n' => existsb (fun c' => ctx_reach n' s c' && backup_points s c' c) (seq 0 (length (ctxs s)))
+    | S n' => existsb (fun c' => if backup_points s c' c then ctx_reach n' s c' else false) (seq 0 (length (ctxs s)))
+                (* the test of the edge comes first and guards the recursion: evaluated the other way round (or with the strict
+                   &&) the search visits every context at every level, (number of contexts)^(number of contexts) calls *)
     end.
 
   Definition ctx_reachable (s : st) (c : nat) : bool := ctx_reach (length (ctxs s)) s c.
